@@ -16,6 +16,9 @@ fn main() {
         "verify" => protocol::run_verify(&mut ctx, &args[2..]),
         "kernels" => kernels::run(&mut ctx, &args[2..]),
         "kzg" => kernels::run_kzg(&mut ctx, &args[2..]),
+        "compress_routes" => protocol::run_compress_routes(&mut ctx, &args[2..]),
+        "proof_canon" => protocol::run_proof_canon(&mut ctx, &args[2..]),
+        "decode_validity" => protocol::run_decode_validity(&mut ctx, &args[2..]),
         "roundtrip" => protocol::run_roundtrip(&mut ctx, &args[2..]),
         "prove_w" => protocol::run_prove_w(&mut ctx, &args[2..]),
         "prove" => protocol::run_prove(&mut ctx, &args[2..]),
